@@ -23,11 +23,11 @@ Proof. exact concrete_aes_ok. Qed.
 
 Theorem document_rt_concrete dec :
   let P := concrete_with dec in
-  forall d v rnd ivs st d1 pw,
+  forall xr d v rnd ivs st d1 pw,
   version_in_domain v -> max_id_ok d -> dict_get (d_trailer d) K_Encrypt = None ->
   try_from_version P d v rnd = Ok st -> doc_encrypt P st d ivs = DOk d1 tt ->
   right_password P d1 v pw ->
-  exists st', doc_decrypt P d1 pw = DOk (plain_doc P st d) st' /\ st_equiv st st'.
+  exists st', doc_decrypt_x P xr d1 pw = DOk (plain_doc P xr st d) st' /\ st_equiv st st'.
 Proof.
   intro P. apply (document_rt P); [exact md5_len16|exact (concrete_with_aes_ok dec)|exact sha256_length|exact sha384_length|exact sha512_length].
 Qed.
@@ -62,21 +62,24 @@ Lemma ex_owner_not_user :
   end = true.
 Proof. vm_compute. reflexivity. Qed.
 
-(* decrypt_raw's object-stream pass: a stream of Type ObjStm holding the objects 7 and 5 -- both are added, the stream
-   stays; with the encryption dictionary under the number 7, the member 7 is not added *)
+(* decrypt_raw's object-stream pass: a stream of Type ObjStm (object 4) holding the objects 7 and 5; the document has an
+   object 5 of generation 2.  Without Compressed entries in the cross-reference table: 7 is added, 5 is not (its number
+   is taken), the stream stays; when the table places object 5 in container 4, (5, 0) is added beside (5, 2); with the
+   encryption dictionary under the number 7, the member 7 is not added *)
 Definition ex_os : objmap :=
   [((1, 0), ODict [(bs "Type", OName (bs "Catalog"))]);
    ((4, 0), OStream [(bs "Type", OName (bs "ObjStm")); (bs "N", OInt 2); (bs "First", OInt 8); (bs "Length", OInt 21)]
-                    (bs "7 0 5 5 (hi) <</A 1>>"))].
+                    (bs "7 0 5 5 (hi) <</A 1>>"));
+   ((5, 2), OInt 9)].
+Definition no_xr : N -> option N := fun _ => None.
+Definition ex_xr : N -> option N := fun n => if n =? 5 then Some 4 else None.
 Lemma ex_objstm_pass :
   has_objstm ex_os = true /\
-  objstm_pass concrete ex_os =
-    [((1, 0), ODict [(bs "Type", OName (bs "Catalog"))]);
-     ((4, 0), OStream [(bs "Type", OName (bs "ObjStm")); (bs "N", OInt 2); (bs "First", OInt 8); (bs "Length", OInt 21)]
-                      (bs "7 0 5 5 (hi) <</A 1>>"));
-     ((5, 0), ODict [(bs "A", OInt 1)]);
-     ((7, 0), OStr (bs "hi") false)] /\
-  map fst (opened_objects concrete ex_os (7, 0) []) = [(1, 0); (4, 0); (5, 0)].
-Proof. split; [reflexivity|]. split; vm_compute; reflexivity. Qed.
+  map fst (objstm_pass concrete no_xr ex_os) = [(1, 0); (4, 0); (5, 2); (7, 0)] /\
+  lookup (objstm_pass concrete no_xr ex_os) (7, 0) = Some (OStr (bs "hi") false) /\
+  map fst (objstm_pass concrete ex_xr ex_os) = [(1, 0); (4, 0); (5, 0); (5, 2); (7, 0)] /\
+  lookup (objstm_pass concrete ex_xr ex_os) (5, 0) = Some (ODict [(bs "A", OInt 1)]) /\
+  map fst (opened_objects concrete no_xr ex_os (7, 0) []) = [(1, 0); (4, 0); (5, 2)].
+Proof. split; [reflexivity|]. repeat split; vm_compute; reflexivity. Qed.
 
 Print Assumptions document_rt_concrete.
